@@ -6,7 +6,7 @@
 let oracle_c02 (line : string) : string =
   let (c, o) = split_case_obs line in
   if String.length o >= 3 && (String.sub o 0 3 = "CRA" || String.sub o 0 3 = "ERR" || String.sub o 0 3 = "FAU") then "BAD the implementation crashed or the observation is malformed" else
-  let _ = parse_case c in
+  let cs = parse_case c in
   let recs = parse_obs o in
   let app = ref app_base in
   let bad = ref None in
@@ -21,6 +21,10 @@ let oracle_c02 (line : string) : string =
         if nl <> nl' || nc <> nc' then bad := Some (Printf.sprintf "record %d: grid sizes" k)
         else if not (c02_cells_checkb !app t (zi nl) (zi nc) before after damage) then
           bad := Some (Printf.sprintf "record %d: a cell changed that the drawing window does not own" k)
+        else if not (c02_exact_checkb !app (progs_fn cs) t (zi nl) (zi nc) before after log) then
+          bad := Some (Printf.sprintf "record %d: a cell does not show what its owner's program alone leaves there" k)
+        else if not (has_restack cs) && not (c02_within_pending_checkb (zi 0) (parse_rects (field r "P")) log) then
+          bad := Some (Printf.sprintf "record %d: the root was handed a rectangle that was not damage" k)
         else if not (c02_rects_checkb t log) then
           bad := Some (Printf.sprintf "record %d: a handler was handed a rectangle outside its window or overlapping another" k)
       end) recs;
